@@ -20,6 +20,13 @@ for c in "$@"; do
   rc=$?
   echo "$c rc=$rc $(( $(date +%s) - s ))s violations=$(grep -c '^VIOLATION' "$OUT/$c.log") :: $(grep -A1 '^VIOLATION' "$OUT/$c.log" | grep why | head -1 | cut -c1-260)"
 done
+if [ -n "${KEEP_REPLAY:-}" ]; then
+  mkdir -p "$KEEP_REPLAY"
+  for c in "$@"; do
+    f=$(ls "$OUT/replays/$c/"*.json 2>/dev/null | head -1)
+    [ -n "$f" ] && cp "$f" "$KEEP_REPLAY/$c.json"
+  done
+fi
 git -C /repo worktree remove --force "$W"
 rm -rf "$OUT" "$W"
 # drop the build directories of the scratch tree (keep the newest per flavour = the real tree is rebuilt on demand)
